@@ -104,8 +104,14 @@ let hexs b = hex_of_bytes b
 
 let fmt_req (sid : n) (r : request) : string =
   let cl = bytes_of_hex "636f6e74656e742d6c656e677468" in
+  (* fasthttp keeps one user-agent and one content-type: the last one set *)
+  let single = [bytes_of_hex "757365722d6167656e74"; bytes_of_hex "636f6e74656e742d74797065"] in
+  let rec last_only (l : (n list * n list) list) =
+    match l with
+    | [] -> []
+    | (k, v) :: t -> if List.mem k single && List.exists (fun (k2, _) -> k2 = k) t then last_only t else (k, v) :: last_only t in
   let fs = List.stable_sort (fun (a, _) (b, _) -> compare (hexs a) (hexs b))
-      (List.filter (fun (k, _) -> k <> cl) r.rq_fields) in
+      (last_only (List.filter (fun (k, _) -> k <> cl) r.rq_fields)) in
   (* sort by the name string, not its hex: hex of ASCII preserves the order *)
   let fields = if fs = [] then "-" else
       String.concat "," (List.map (fun (k, v) -> hexs k ^ "=" ^ hexs v) fs) in
